@@ -6,12 +6,35 @@ import (
 	"fmt"
 	"os"
 	"runtime/pprof"
+	"syscall"
 	"time"
 
 	"capnproto.org/go/capnp/v3/zverif/common"
 )
 
+// memoryFence caps the process's private writable memory (RLIMIT_DATA; unlike
+// RLIMIT_AS it does not count the Go runtime's PROT_NONE address-space
+// reservations).  On correct library code a child stays below ~400 MB; if the
+// library ever follows a hostile header into a multi-GiB allocation the child
+// dies with "fatal error: out of memory" (reported by the orchestrator as a
+// crash of that case) instead of exhausting the machine.
+const memoryFence = 1536 << 20
+
+func fenceMemory() {
+	var rl syscall.Rlimit
+	if err := syscall.Getrlimit(syscall.RLIMIT_DATA, &rl); err != nil {
+		return
+	}
+	lim := uint64(memoryFence)
+	if rl.Max < lim {
+		lim = rl.Max
+	}
+	rl.Cur = lim
+	syscall.Setrlimit(syscall.RLIMIT_DATA, &rl)
+}
+
 func main() {
+	fenceMemory()
 	cfg := common.ParseFlags()
 	rec := common.NewRecorder(cfg)
 	// Developer aids only (profiling, per-case wall time on stderr); neither
